@@ -101,7 +101,8 @@ def oracle(p, o):
         for r in o["results"]:
             if r["test_id"] in ("B105", "B106", "B107") and (r["test_id"], r["text"]) not in want:
                 # accept reports the statement does not speak about (e.g. chained comparisons, subscript of a literal)
-                if not re.search(r"==.*==|\[0\]|\\n", p["src"]):
+                chained = any(isinstance(n_, ast.Compare) and len(n_.ops) > 1 for n_ in ast.walk(tree))
+                if not chained and not re.search(r"\[0\]|\\n", p["src"]):
                     bad("%s reported (%s) but no matching-name/literal pair of the statement's five positions justifies it"
                         % (r["test_id"], r["text"][:60]), "b105-unjustified-report")
     # B104
